@@ -75,6 +75,7 @@ func c08(e *Env) {
 	shape := c.Choose("c08shape", 4) // 0 plain, 1 restarts, 2 late joiners, 3 re-prepare failures
 	p := fwdParams{
 		SystemPrepares: true,
+		OddPrepares:    true,
 		Hosts:          2 + c.Choose("hosts", 3),
 		NumConns:       1 + c.Choose("numconns", 2),
 		Clients:        1 + c.Choose("clients", 3),
